@@ -7,6 +7,9 @@ whose REAL source is executed by the engine (it is a thin wrapper around a Pytho
 GMP / custom back ends behave identically is property C16 (proved elsewhere); that IntegerNative's arithmetic
 is exact is C14.  Methods whose bodies are number-theoretic algorithms (inverse, gcd, lcm, sqrt, ...) get assumed
 contracts stated with mathematical spec functions (spec.keys.*); they are covered by bounded/bigint.py.
+Known back-end difference outside C16's scope (two preconditions violated at once, decided with the coordinator): pow(x, e < 0, 0)
+raises ZeroDivisionError with IntegerGMP and ValueError with IntegerNative / IntegerCustom (order of the two checks); no contract
+here depends on that case (construct() refuses p <= 1 before any modular exponentiation).
 """
 from vf.pyvc.contracts import Contract, ClassContract
 from vf.pyvc.values import ClassV
